@@ -134,7 +134,11 @@ func main() {
 	switch *prop {
 	case "C06":
 		genC06(*out, *tier, rng)
-	case "C01", "C12", "C13", "C14", "C05", "C16", "C17", "C03":
+	case "C18":
+		genC18(*out, *tier, rng)
+	case "C16":
+		genC16(*out, *tier, rng)
+	case "C01", "C12", "C13", "C14", "C05", "C17", "C03":
 		genPrograms(*prop, *out, *tier, rng)
 	default:
 		fmt.Fprintln(os.Stderr, "unknown property", *prop)
